@@ -328,6 +328,8 @@ func (r *Report) writeEvidence() {
 				assume["assumption of the caller about a call's result: "+strings.TrimPrefix(l, "assume-after:")] = true
 			case strings.HasPrefix(l, "stable-across:"):
 				assume["frame assumption of the caller (callee does not modify these objects): "+strings.TrimPrefix(l, "stable-across:")] = true
+			case strings.HasPrefix(l, "ghost:"):
+				assume["ghost state kept by the engine: "+strings.TrimPrefix(l, "ghost:")] = true
 			case l == "dynamic-call":
 				assume["dynamic function value call havocked"] = true
 			}
